@@ -80,6 +80,29 @@ add("C20", "A-product", "DESIGN.md 2/C20",
     "point density on 5 kernels x 14 data sets x 3 grids x weights x axial with permutations and sign flips.",
     "Kernel formulas of pydrex.stats are trusted for the un-clipped reference (the statement does not define them).")
 
+
+add("C05", "B-history(twin)", "DESIGN.md 2/C05",
+    "explicit-state BFS over update histories with a lock-step twin driven by k.L on a 1/k time axis, all 8 k letters",
+    "Every update sequence to depth 2/3 from every root is executed on a mineral and on its rescaled twin for each k in {1e-16..1e3}; stored snapshots and returned F are compared after every update.",
+    "Statement-level ODE bound for the verdict; observed maximum reported; derivatives seam observed only.")
+add("C06", "B-history", "DESIGN.md 2/C06",
+    "exhaustive enumeration of (F0, flow, mineral, partition) with every partition of the span replayed on the real update against a reference integrator",
+    "All 5 x 8 (F0, flow) pairs x fabric x regime x <=1 mineral deviation; all 10 partitions of the span; every intermediate and final F is compared with expm / DOP853(rtol 1e-12); update_all over all assemblages and orders.",
+    "Trusts scipy expm / DOP853 (cross-validated against each other in warmup).")
+add("C07", "A-product + B-history", "DESIGN.md 2/C07",
+    "exhaustive enumeration of regime / phase / fabric ordinals on derivatives; BFS over null-forcing histories; rejected updates with pre-histories",
+    "All regime ordinals -1..9 x fabrics, all (phase, fabric) pairs incl. out-of-range; all sequences to depth 2/3 of null-forcing updates (zero gradient, viscosity-bound regimes, M*=0) with invariance and F reference checked on every transition; "
+    "rejected updates (incl. a regime turning unsupported mid-interval) must raise and leave the history untouched.",
+    "F reference as C06.")
+add("C08", "B-history(twin) + C-environment(interleavings)", "DESIGN.md 2/C08",
+    "BFS with single-phase / permuted-assemblage twins; stateless DFS over ALL interleavings of per-mineral update sequences (6, 90)",
+    "Every update sequence to depth 2/3 is run on a mineral inside a two-phase assemblage and on its single-phase twin with phi.M*; all mineral orders of update_all; every interleaving of 2x2 and 3x2 (thorough 2x3) updates compared bitwise with the first schedule; schedule count cross-checked against the multinomial closed form.",
+    "ODE bound for (a)-(c), bitwise for interleavings and identical twins.")
+add("C09", "A-product + B-history", "DESIGN.md 2/C09",
+    "full product over the apply_gbs kernel alphabet (threshold ties, ulp neighbours) against a numpy restatement; BFS over update histories with a recording seam",
+    "Kernel: 7 chi x 5 n x 12 volume letters x 3 orientation-set pairs. Histories: all sequences to depth 2/3 from roots with strongly non-uniform volumes; every apply_gbs call of every update is observed.",
+    "Seam-dependent clauses are skipped (reported) if the seam disappears; the black-box floor bound is always checked.")
+
 NOT_YET = {}
 
 def main():
